@@ -314,6 +314,11 @@ def _check_c07(plan):
         n = next((i for i, (x, y) in enumerate(zip(la, lb)) if x != y), min(len(la), len(lb)))
         V.append({"prop": "C07", "tag": "log-depends-on-secret",
                   "detail": "INFO+ record %d differs: %r vs %r" % (n, la[n][:2] if n < len(la) else None, lb[n][:2] if n < len(lb) else None)})
+    # (b') anything printed to stdout/stderr is a channel too
+    if (ha.get("stdout"), ha.get("stderr")) != (hb.get("stdout"), hb.get("stderr")):
+        V.append({"prop": "C07", "tag": "log-depends-on-secret",
+                  "detail": "stdout/stderr differ between the two worlds: %r vs %r" % (
+                      (ha.get("stdout", "") + ha.get("stderr", ""))[:200], (hb.get("stdout", "") + hb.get("stderr", ""))[:200])})
     # (c) every planted position holds a pseudonym, context kept
     ctx_check = not (o["ip"] or o["words"] or o["as"])
     for which, h in (("a", ha), ("b", hb)):
@@ -347,7 +352,7 @@ def _check_c07(plan):
                               "key": "reserved-by-earlier" if any("secret" in x for it in plan["pre"] for x in it["reserved"]) else None})
         # (d) no planted secret anywhere in its own world's outputs, dump or INFO+ records
         blob = b"\n".join(v for k, v in sorted(h["snap"]["files"].items()) if not k.startswith("in/"))
-        logblob = "\n".join(m + "\n" + tb for lv, m, tb in h["logs"])
+        logblob = "\n".join(m + "\n" + tb for lv, m, tb in h["logs"]) + "\n" + h.get("stdout", "") + "\n" + h.get("stderr", "")
         for ident, s in sorted(plan["secrets"].items()):
             val = s[which]
             probes["leak_scans"] += 1
